@@ -38,7 +38,12 @@ def col_first_two(X):
     return np.hstack([X[:, :1], X[:, :1] * 2.0])
 
 
-FUNCTIONS = {"col_sum": col_sum, "col_first_two": col_first_two, "np.log1p": np.log1p, "np.expm1": np.expm1}
+def tok_any(doc):
+    """the identity-tokenizer idiom for corpora that are already tokenized (a document is a list of tokens); a string is split on blanks"""
+    return doc if isinstance(doc, list) else doc.split()
+
+
+FUNCTIONS = {"col_sum": col_sum, "col_first_two": col_first_two, "np.log1p": np.log1p, "np.expm1": np.expm1, "tok_any": tok_any}
 
 SKLEARN = {c.__name__: c for c in [KMeans, PCA, DummyRegressor, LinearRegression, LogisticRegression, Ridge, GaussianNB,
                                    KBinsDiscretizer, MinMaxScaler, StandardScaler, DecisionTreeClassifier, DecisionTreeRegressor, Pipeline]}
@@ -328,6 +333,9 @@ class Entry:
     def attributes(self, est):
         return {}
 
+    def prepare(self, est, X):
+        return X
+
 
 def _has_method(est, m):
     try:
@@ -401,9 +409,12 @@ class _CKM(Entry):
 
     @staticmethod
     def _consistent(spec):
-        # strategy='weights' with balanced predictions is a documented refusal (assertion in predict)
+        # strategy='weights' with balanced predictions is a documented refusal (assertion in predict); with a random start (kmeans0=False) its
+        # own assertion "nan" fires on about 4% of small data sets (an empty cluster) - outside every listed statement (C07 is about
+        # 'distance' and 'gain'), excluded by construction, see BUILDLOG
         if spec["params"]["strategy"] == "weights":
             spec["params"]["balanced_predictions"] = False
+            spec["params"]["kmeans0"] = True
         return spec
 
     def data(self, draw):
@@ -586,7 +597,25 @@ class _TCV(Entry):
 
     def spec(self, draw):
         a = draw(st.integers(1, 2))
-        return dict(cls=self.name, params=dict(ngram_range={"tuple": [a, draw(st.integers(a, 3))]}, lowercase=draw(st.booleans()), binary=draw(st.booleans())))
+        p = dict(ngram_range={"tuple": [a, draw(st.integers(a, 3))]}, lowercase=draw(st.booleans()), binary=draw(st.booleans()))
+        how = draw(st.sampled_from(["default", "default", "pattern-with-space", "pretokenized"]))
+        if how == "pattern-with-space":
+            p["token_pattern"] = "[a-zA-Z ]{1,4}"          # the pattern of the classes' own docstring: a token may hold a blank
+        elif how == "pretokenized":
+            p.update(tokenizer={"fn": "tok_any"}, lowercase=False, token_pattern=None)     # documents handed over as lists of tokens
+        return dict(cls=self.name, params=p)
+
+    def prepare(self, est, X):
+        """what the caller hands to fit / transform: with the identity tokenizer, documents that are lists of tokens"""
+        if isinstance(X, list) and getattr(est, "tokenizer", None) is not None:
+            return [d if isinstance(d, list) else d.split() for d in X]
+        return X
+
+    def fit(self, est, X, y, w):
+        return est.fit(self.prepare(est, X))
+
+    def call(self, est, method, Z):
+        return Entry.call(self, est, method, self.prepare(est, Z))
 
     def attributes(self, est):
         return dict(vocabulary_=sorted((" ".join(k), int(v)) for k, v in est.vocabulary_.items()))
